@@ -54,8 +54,9 @@ def compute_domains_min_eq(domains: NDArray, parameters: NDArray) -> int:
     candidates_nb = 0
     candidate_idx = -1
     for i in range(len(x)):
-        if x[i, MIN] <= y[MIN]:
+        if x[i, MIN] < y[MIN]:
             x[i, MIN] = y[MIN]
+        if x[i, MIN] <= y[MAX]:  # x_i can still be the minimum
             candidate_idx = i
             candidates_nb += 1
     if candidates_nb == 1:
